@@ -67,7 +67,8 @@ Definition call_sensible (cfg : e2e_cfg) (y : sys) (a : api) : bool :=
   | AUnsubPre tid => cstate_eqb (cl_st c) Active &&
                      match get_name (k_predef cl) (k_cid cl) tid with Some _ => true | None => false end
   | ARegister t | AUnsub t => cstate_eqb (cl_st c) Active && negb (len t =? 0) && negb (has_wildcard t && match a with ARegister _ => true | _ => false end)
-  | APing | ADisconnect | AClose => cstate_eqb (cl_st c) Active
+  | APing => cstate_eqb (cl_st c) Active || cstate_eqb (cl_st c) Awake   (* awake: the gateway answers the PINGREQ of the sleeping session itself *)
+  | ADisconnect | AClose => cstate_eqb (cl_st c) Active
   | ASleep _ => cstate_eqb (cl_st c) Active || cstate_eqb (cl_st c) Awake
   end.
 
@@ -114,7 +115,7 @@ Definition emon_step (cfg : e2e_cfg) (y y' : sys) (ev : sys_event) (os : list sy
               | SCall id a =>
                 if ll && call_sensible cfg y a && negb (match a with ASleep _ => true | _ => false end) then
                   (if existsb (fun ir => (fst ir =? id) && is_ok (snd ir)) rets then [] else [(26, 1)]) ++
-                  (if effect_seen cfg a brs then [] else [(26, 2)])
+                  (if effect_seen cfg a brs || (match a with APing => true | _ => false end && cstate_eqb (cl_st (y_cl y)) Awake) then [] else [(26, 2)])
                 else []
               | _ => [] end in
   (* a Sleep call returns nil once its wake-up cycle is over *)
